@@ -638,7 +638,7 @@ func check(prop, tier string, seed int64, budget, workers, maxSeeds int, race, n
 		exit = 1
 	}
 	writeEvidence(prop, tier, seed, agg, sgStats, time.Since(t0).Seconds(), buildS, exploreS, len(order)-len(knownLines), knownLines, workers, race)
-	if agg.evals == 0 {
+	if agg.evals == 0 && exit == 0 && len(knownLines) == 0 {
 		infra("no scenario was evaluated")
 	}
 	fmt.Printf("verifctl: %d scenarios, %d simulated runs, %d scheduler steps, %d distinct interleavings, %.0f runs/hour, exit %d\n", agg.evals, agg.runs, agg.steps, len(agg.traces), float64(agg.runs)/exploreS*3600, exit)
@@ -655,6 +655,12 @@ func sameViolation(v *Verdict, class, sig string) bool {
 	}
 	if class == "c10-data-race" {
 		return v.Class == class
+	}
+	if class == "c10-not-serialisable" && v.Class == "c10-data-race" {
+		// the race detector reports a given pair of stacks once per process: a long-lived worker that
+		// has already reported the race sees only its consequence (an unserialisable answer), a fresh
+		// process sees the race first.  Same defect.
+		return true
 	}
 	return v.Class == class && v.Signature == sig
 }
